@@ -294,6 +294,12 @@ func c08Call(id string, known map[string]int) (digest string, err error) {
 		case "D":
 			m := arg(2)
 			opts := optionList(m&7, &countingLogger{}, uint64(arg(1)*7+m))
+			if m >= 16 {
+				// the options come as a prefix of one process-wide slice with spare capacity (an
+				// application that keeps its option list and passes opts[:k]...): what one call is
+				// given must still be there, unchanged, for the next
+				opts = c08SharedOpts()[:m-16]
+			}
 			f, e := fit.Decode(bytes.NewReader(p.inputs[arg(1)]), opts...)
 			out = canonContent(f, known) + "|" + lib.ErrText(e)
 			if m&8 != 0 {
@@ -397,12 +403,23 @@ func c08Call(id string, known map[string]int) (digest string, err error) {
 	return h64([]byte(out)), nil
 }
 
+var c08Shared []fit.DecodeOption
+
+// c08SharedOpts returns the process-wide option slice: three options, capacity eight.
+func c08SharedOpts() []fit.DecodeOption {
+	if c08Shared == nil {
+		c08Shared = make([]fit.DecodeOption, 0, 8)
+		c08Shared = append(c08Shared, fit.WithUnknownFields(), fit.WithUnknownMessages(), fit.WithLogger(&countingLogger{}))
+	}
+	return c08Shared
+}
+
 // c08RandomCall draws a call id.
 func c08RandomCall(rng *lib.Rand) string {
 	p := c08Pool()
 	switch rng.Intn(12) {
 	case 0, 1, 2, 3:
-		return fmt.Sprintf("D:%d:%d", rng.Intn(len(p.inputs)), []int{0, 0, 0, 7, 2, 4, 1, 3, 8, 15}[rng.Intn(10)])
+		return fmt.Sprintf("D:%d:%d", rng.Intn(len(p.inputs)), []int{0, 0, 0, 7, 2, 4, 1, 3, 8, 15, 16, 17, 18, 19, 17, 19}[rng.Intn(16)])
 	case 4:
 		return fmt.Sprintf("DC:%d", rng.Intn(len(p.chains)))
 	case 5:
